@@ -146,7 +146,9 @@ Step ==
              !.nbad = [k \in K |-> IF \E e \in bs : e.k = k /\ s.rst[k] = "sent" THEN @[k] + 1 ELSE @[k]],
              !.deliv = @ \cup eff,
              !.named = @ \cup {e.k : e \in {x \in eff : x.kind # "upd"}},
-             !.must = @ \cup (IF Clean(m) THEN {k \in decisive : s.rst[k] = "sent"} ELSE {}) \cup {e.k : e \in secondBad},
+             \* (a request whose caller has given up is busy asking the server to drop the answer: it need not complete now)
+             !.must = @ \cup (IF Clean(m) THEN {k \in decisive : s.rst[k] = "sent" /\ ~s.icancel[k]} ELSE {})
+                        \cup {e.k : e \in {x \in secondBad : ~s.icancel[x.k]}},
              !.allUpds = @ \cup {e.tag : e \in {x \in eff : x.kind = "upd"}},
              !.upds = @ \cup (IF Clean(m) THEN {e.tag : e \in {x \in eff : x.kind = "upd"}} ELSE {})]
   \/ /\ Ev.ev = "sent"
